@@ -92,10 +92,10 @@ def base_grammars():
         NT("R", [A("Q"), A("R", "a", "a")], pub=True),
     ], tags=["multiple pub start symbols"]))
 
-    gs.append(Grammar("stmt", terms("if then else x ;"), [
+    gs.append(Grammar("stmt", terms("if else x"), [
         NT("S", [A("M"), A("U")], pub=True),
-        NT("M", [A("if", "x", "then", "M", "else", "M"), A("x", ";")]),
-        NT("U", [A("if", "x", "then", "S"), A("if", "x", "then", "M", "else", "U")]),
+        NT("M", [A("if", "M", "else", "M"), A("x")]),
+        NT("U", [A("if", "S"), A("if", "M", "else", "U")]),
     ], tags=["matched/unmatched if", "long productions"]))
 
     gs.append(Grammar("list2", terms("a , [ ] ;"), [
